@@ -85,9 +85,21 @@ func (g *gen) declare(name, typ string, e ex) *vinfo {
 		v.ascii = e.ascii
 		v.growing = !e.short || g.chance(30)
 		v.minLen = min(e.minLen, 3)
+		switch {
+		case !v.growing:
+			v.maxLen = 16
+		case e.maxLen <= strStore:
+			v.maxLen = strVar
+		default:
+			v.maxLen, v.noAppend = e.maxLen, true
+		}
 	case "[]byte":
 		v.growing = !e.short || g.chance(30)
 		v.minLen = min(e.minLen, 3)
+		v.maxLen = 16
+		if v.growing {
+			v.maxLen = e.maxLen + costCap
+		}
 	case "[]int":
 		v.growing = g.chance(50)
 		v.minLen = e.minLen
@@ -280,7 +292,7 @@ func (g *gen) genOfFresh(typ string, d int) (ex, bool) {
 		e := g.genBytes(d)
 		if !e.fresh {
 			// []byte(string(b)) copies
-			e = ex{n: &Node{K: "conv", T: "[]byte", A: []*Node{{K: "conv", T: "string", A: []*Node{e.n}}}}, pan: e.pan, hard: e.hard, minLen: e.minLen, short: e.short, fresh: true}
+			e = ex{n: &Node{K: "conv", T: "[]byte", A: []*Node{{K: "conv", T: "string", A: []*Node{e.n}}}}, pan: e.pan, hard: e.hard, minLen: e.minLen, short: e.short, fresh: true, maxLen: e.maxLen}
 		}
 		return e, true
 	}
@@ -412,11 +424,14 @@ func (g *gen) stAssign() *Node {
 		if v := g.pickVar("string", func(v *vinfo) bool { return g.writable(v) && g.paramWritable(v) }); v != nil {
 			e := g.genStr(2)
 			op := "="
-			if v.growing && g.chance(60) {
+			if v.growing && !v.noAppend && g.chance(60) {
 				op = "+="
 				g.mark("string-append")
+				if !e.short {
+					e = g.shortStr() // growth per execution stays below 16 bytes
+				}
 			}
-			if (!v.ascii || e.ascii) && (op == "+=" || (e.minLen >= v.minLen && (v.growing || e.short))) {
+			if (!v.ascii || e.ascii) && (op == "+=" || (e.minLen >= v.minLen && (v.growing && e.maxLen <= strStore || e.short))) {
 				g.noteExpr(e)
 				n := &Node{K: "assign", S: op, A: []*Node{vr(v.name), e.n}}
 				g.noteWrite(n.A[0])
@@ -929,8 +944,8 @@ func (g *gen) stSwitch() *Node {
 		}
 	case 1:
 		tag := g.genStr(1)
-		if tag.n.K == "bin" && !g.on(kConcatCmp) {
-			tag = g.strLeaf()
+		if !tag.short && !g.on(kConcatCmp) {
+			tag = g.shortStr()
 		}
 		g.noteExpr(tag)
 		n.A[1] = tag.n
@@ -1129,6 +1144,9 @@ func (g *gen) stReturn() *Node {
 		if r.Type == "int" {
 			e = fitStore(e)
 		}
+		if r.Type == "string" && e.maxLen > strRes {
+			e = g.shortStr()
+		}
 		if g.structDef(r.Type) != nil && !e.fresh && !g.localOwned(e) {
 			e, _ = g.genFreshOf(r.Type, 1)
 		}
@@ -1238,7 +1256,7 @@ func (g *gen) stCall() *Node {
 			v.wide, v.lo, v.hi = true, -wideB, wideB
 		}
 		if rt == "string" {
-			v.growing, v.ascii = true, f.resAscii
+			v.growing, v.ascii, v.maxLen, v.noAppend = true, f.resAscii, strRes, true
 		}
 		defer g.add(v)
 	}
@@ -1249,7 +1267,7 @@ func (g *gen) stCall() *Node {
 			v.wide, v.lo, v.hi = true, -wideB, wideB
 		}
 		if v.typ == "string" {
-			v.growing = true
+			v.growing, v.maxLen, v.noAppend = true, strRes, true
 		}
 		defer g.add(v)
 	}
